@@ -173,7 +173,7 @@ func cmdVerify(args []string) int {
 			os.MkdirAll(*dump, 0o755)
 			for i, o := range rep.Obls {
 				name := fmt.Sprintf("%s_%03d.smt2", sanitize(o.Name), i)
-				os.WriteFile(filepath.Join(*dump, name), []byte("(set-logic ALL)\n"+o.Decls+o.Query+"(check-sat)\n"), 0o644)
+				os.WriteFile(filepath.Join(*dump, name), []byte("(set-logic ALL)\n"+o.Decls+addUnfoldings(o.Decls, o.Query)+"(check-sat)\n"), 0o644)
 			}
 		}
 	}
